@@ -53,17 +53,14 @@ Theorem unary_opcode_matches_type :
 Proof. exact PromoteProofs.unary_opcode_matches_type. Qed.
 Print Assumptions unary_opcode_matches_type.
 
-(* every accepted operator application has an opcode: FALSE on the tree (comparisons
-   and % with an enum operand pass the typechecker and abort in front/emit.c) *)
-Theorem accepted_cells_are_emitted_refuted :
-  exists y, In y binop_table /\ bo_emit y = EmitAbort.
-Proof. exact PromoteProofs.accepted_cells_are_emitted_refuted. Qed.
-Print Assumptions accepted_cells_are_emitted_refuted.
-
-Theorem accepted_cells_are_emitted_partial :
-  forall y, In y binop_table -> bo_l y <> TEnum -> bo_r y <> TEnum -> bo_emit y <> EmitAbort.
-Proof. exact PromoteProofs.accepted_cells_are_emitted_partial. Qed.
-Print Assumptions accepted_cells_are_emitted_partial.
+(* every accepted operator application has an opcode (true since /repo 2ca194c: an item
+   enumerator operand is typed int; before, < <= > >= % == != with an enum operand passed the
+   typechecker and aborted in front/emit.c, and the statement was refuted / proved only for
+   the cells without enum operand) *)
+Theorem accepted_cells_are_emitted :
+  forall y, In y binop_table -> bo_emit y <> EmitAbort.
+Proof. exact PromoteProofs.accepted_cells_are_emitted. Qed.
+Print Assumptions accepted_cells_are_emitted.
 
 (* ---- part 2: values ---- *)
 
